@@ -63,7 +63,27 @@ func runQUIC(t *testing.T, tape *simrt.Tape, g simrt.Gen, o *common.Outcome, qui
 	// the dialling node (quicreuse.DisableReuseport: every dial opens a socket and a quic-go transport of its own, which
 	// are then part of what the attempt acquired)
 	noReuse := g.Int(2) == 1
+	// simultaneous connect (QUIC-only stratum, 1 run in 4): A dials in the SERVER role of a hole punch (the transport sends
+	// probe packets and waits for its own listener to hand it the connection B opens), B dials A at the same time; B's dial
+	// starts after a drawn delay so that the punch's 5 s timeout, the planned fault and the arrival of B's connection meet
+	punch := quic == 1 && g.Int(4) == 3
+	punchDelay := []time.Duration{0, 50 * time.Millisecond, time.Second, 4900 * time.Millisecond, 4999 * time.Millisecond, 5 * time.Second, 5001 * time.Millisecond}[g.Int(7)]
+	if !punch {
+		punchDelay = 0
+	} else {
+		// the interesting ends of a hole punch are the ones that race with the arrival of the peer's connection: in two
+		// thirds of the punch runs the plan becomes a cancellation or a Close of the punching host at an early datagram
+		switch g.Int(3) {
+		case 1:
+			p = plan{quic: quic, kind: 4, onB: g.Bool(), k: 1 + g.Int(30)}
+		case 2:
+			p = plan{quic: quic, kind: 5, onB: g.Bool(), k: 1 + g.Int(30), target: []int{2, 0, 4}[g.Int(3)]}
+		}
+	}
 	payload := []int{64, 2000, 70000}[g.Weighted(3, 3, 1)]
+	if punch {
+		o.Logf("simultaneous connect: A in the server role of a hole punch, B dials A after %v", punchDelay)
+	}
 	o.Logf("stratum=%s background=%d reuseport-disabled=%v payload=%d plan: %s", [...]string{"", "quic", "quic+tcp", "webtransport"}[quic], bg, noReuse, payload, p)
 	restore := simrand.Install(uint64(payload + bg))
 	defer restore()
@@ -141,7 +161,23 @@ func runQUIC(t *testing.T, tape *simrt.Tape, g simrt.Gen, o *common.Outcome, qui
 		a.PS.AddAddrs(b.ID, target.Addrs, peerstore.PermanentAddrTTL)
 
 		attempt := func(ctx context.Context) string {
-			if err := a.Host.Connect(ctx, target); err != nil {
+			if punch {
+				bdone := make(chan error, 1)
+				simrt.GoNamed("b-dials-a", func() {
+					simrt.TimeSleep(punchDelay)
+					bctx, bcancel := context.WithTimeout(context.Background(), 30*time.Second)
+					defer bcancel()
+					bdone <- b.Host.Connect(bctx, peer.AddrInfo{ID: a.ID, Addrs: []ma.Multiaddr{a.QAddr}})
+				})
+				err := a.Host.Connect(network.WithSimultaneousConnect(ctx, false, "c04"), target)
+				berr := simrt.Recv("c04.bdone", bdone)
+				if err != nil && berr != nil {
+					return "connect-failed"
+				}
+				if err != nil {
+					o.Probe("hole-punch-failed-while-peer-connected")
+				}
+			} else if err := a.Host.Connect(ctx, target); err != nil {
 				return "connect-failed"
 			}
 			s, err := a.Host.NewStream(ctx, b.ID, echoProto)
@@ -430,7 +466,10 @@ func runQUIC(t *testing.T, tape *simrt.Tape, g simrt.Gen, o *common.Outcome, qui
 			o.Fault(k)
 		}
 	}
-	o.Sig = fmt.Sprintf("quic%d|bg%d|%s|%s|fired=%v|%d", quic, bg, p, attemptOutcome, fired, udp["udp-lost"])
+	o.Sig = fmt.Sprintf("quic%d|bg%d|%s|%s|fired=%v|%d|%v%v", quic, bg, p, attemptOutcome, fired, udp["udp-lost"], punch, punchDelay)
+	if punch {
+		o.Probe("hole-punch-" + attemptOutcome)
+	}
 	o.Nontrivial = fired || udp["udp-lost"] > 0
 	if o.Nontrivial {
 		o.Probe("outcome-" + attemptOutcome)
